@@ -1167,3 +1167,17 @@ Proof.
   - destruct (walk_fin _ _ _ _ _ H) as [h F]; [lia|].
     destruct (walkc_on_fin _ _ _ _ F _ _ _ _ _ _ (above_nil p h) (Forall_nil _) E) as [K _]. exact K.
 Qed.
+
+(* running out of budget never yields a claimed suffix *)
+Lemma constant_suffix_b_exhausted : forall p,
+  sufwalkB p (alt_fuel p) SUFFIX_BUDGET (start p) [] [] = SBudget -> constant_suffix_b p = Some [].
+Proof. intros p H. unfold constant_suffix_b. rewrite H. reflexivity. Qed.
+
+(* and what is claimed within the budget is what the walk without budget computes *)
+Lemma constant_suffix_b_within : forall p s, constant_suffix_b p = Some s -> s <> [] -> constant_suffix p = Some s.
+Proof.
+  intros p s H Hne. unfold constant_suffix_b in H.
+  destruct (sufwalkB p (alt_fuel p) SUFFIX_BUDGET (start p) [] []) as [r b'| |] eqn:E; try discriminate.
+  - inversion H; subst. unfold constant_suffix. eapply sufwalkB_ok; eauto.
+  - inversion H; subst. contradiction.
+Qed.
